@@ -61,7 +61,9 @@ def table_row(code, digits):
     row = [code, n]
     if n < 2:
         return row
-    for N, fas, fr in variants(x, DT):
+    # the record as the caller may hand it over: float array, integer array, list of ints
+    arg = [x, x.astype(np.int64), [int(v) for v in x]][code % 3]
+    for N, fas, fr in variants(arg, DT):
         fas, fr = np.asarray(fas), np.asarray(fr, dtype=float)
         row += [N, len(fas)]
         for z in fas:
@@ -111,7 +113,10 @@ def build_traces(path, tier, seed):
         n = min(n, nmax)
         x, shape = gen.record(rng, n)
         dt = [0.005, 0.01, 0.5, 2.0][i % 4]
+        if i % 5 == 3:                      # integer-count record
+            x = np.round(x / (np.max(np.abs(x)) + 1e-300) * 1000).astype(np.int64)
         vs = variants(x, dt)
+        x = np.asarray(x, dtype=float)
         v = i % 8
         N, fas, fr = vs[v]
         objfas, objfr = [], []
